@@ -55,7 +55,7 @@ void DecodeDATA(IntType CodeIntType, IntType DataIntType) {
     LargeWord  UnknownMask    = ValMask / 2;
 
     as_tempres_ini(&t);
-    if (ChkArgCnt(1, ArgCntMax)) {
+    if (ChkArgCnt(1, ArgCntMax) && ChkArgCodeSpace(4)) {
         ValOK = True;
         for (z = 1; ValOK && (z <= ArgCnt); z++) {
             EvalStrExpression(&ArgStr[z], &t);
